@@ -180,10 +180,7 @@ func (g *G) valueType() hs.Type {
 func printable(t hs.Type) bool {
 	switch t.K {
 	case hs.KObj:
-		if len(t.Fields) > 1 {
-			return false
-		}
-		return printable(t.Fields[0].T)
+		return false // the rendering of objects is not documented; observe them through fields
 	case hs.KList, hs.KOpt:
 		return printable(*t.Elem)
 	case hs.KFn, hs.KAny, hs.KAnyObj, hs.KNull, hs.KNever:
@@ -792,7 +789,12 @@ func (g *G) matchExpr(t hs.Type, d int) hs.Expr {
 			var lit hs.Expr
 			switch ct.K {
 			case hs.KInt:
-				lit = g.smallInt(-2, 5)
+				if k > 1 {
+					// the parser accepts prefixed literals only in single-literal arms
+					lit = g.smallInt(0, 5)
+				} else {
+					lit = g.smallInt(-2, 5)
+				}
 			case hs.KStr:
 				lit = g.strLit()
 			default:
